@@ -394,3 +394,7 @@ impl Group for C12Node {
         co
     }
 }
+
+pub fn groups() -> Vec<Box<dyn Group>> {
+    vec![Box::new(C12Unit), Box::new(C12Node)]
+}
